@@ -194,6 +194,10 @@ func (x *runner) archiveBytes(fam string, arch []byte) {
 			if x.rnd.Intn(40) == 0 {
 				x.readerChecks(arch)
 			}
+			if x.rnd.Intn(25) == 0 {
+				wc := 3*len(ins) + 10
+				x.layerChecks(arch, walkFS(sys, wc), true, wc)
+			}
 		}
 	} else {
 		if linkInPath(ms) {
@@ -208,6 +212,9 @@ func (x *runner) archiveBytes(fam string, arch []byte) {
 			r.Count("new-failed-with-link-in-a-member-path")
 		} else {
 			lines = append(lines, opline{"new", newOut, true})
+			if x.rnd.Intn(10) == 0 {
+				x.layerChecks(arch, "", false, 0)
+			}
 			if x.rnd.Intn(2) == 0 {
 				// A Layer over an archive New rejects.
 				lines = append(lines, x.layerLines(arch, nil, 0)...)
